@@ -208,21 +208,22 @@ theorem LogExt.all {P : Call α → Prop} {l l' : List (Call α)} (h : LogExt P 
 
 /-- what one objective/gradient request at `x` may append to the log: objective calls, and
 — with a callable gradient — only at the requested point -/
-def EvalAt (mode : GradMode) (x : Vec α) (c : Call α) : Prop :=
-  (c.kind = .F ∨ c.kind = .G) ∧ (mode = .callable → c.arg = x)
+def EvalAt (u : SFUser α ε) (mode : GradMode) (x : Vec α) (c : Call α) : Prop :=
+  (c.kind = .F ∨ c.kind = .G) ∧
+    (c.arg = x ∨ (mode = .fd ∧ ∃ f, c.arg ∈ u.fdPts x f))
 
-theorem fcalls_evalAt_fd (x : Vec α) (ps : List (Vec α)) :
-    ∀ c ∈ fcalls ps, EvalAt .fd x c := by
+theorem fcalls_evalAt_fd (u : SFUser α ε) (x : Vec α) (f : α) :
+    ∀ c ∈ fcalls (u.fdPts x f), EvalAt u .fd x c := by
   intro c hc
   simp only [fcalls, List.mem_map] at hc
-  obtain ⟨p, -, rfl⟩ := hc
-  exact ⟨Or.inl rfl, fun h => by cases h⟩
+  obtain ⟨p, hp, rfl⟩ := hc
+  exact ⟨Or.inl rfl, Or.inr ⟨rfl, f, hp⟩⟩
 
 section
 variable [LinearOrder α] [OfNat α 0]
 
 theorem updFun_log {u : SFUser α ε} {s s' : SF α} (h : s.updFun u = .ok s') :
-    LogExt (EvalAt s.mode s.x) s.log s'.log ∧ s.nfev ≤ s'.nfev ∧ s'.nfev ≤ s.nfev + 1 ∧
+    LogExt (EvalAt u s.mode s.x) s.log s'.log ∧ s.nfev ≤ s'.nfev ∧ s'.nfev ≤ s.nfev + 1 ∧
       s'.ngev = s.ngev := by
   unfold SF.updFun at h
   by_cases hf : s.fUpd = true
@@ -238,10 +239,29 @@ theorem updFun_log {u : SFUser α ε} {s s' : SF α} (h : s.updFun u = .ok s') :
       simp [h1, bind, Except.bind, pure, Except.pure] at h
       obtain ⟨-, hs1⟩ := callF_ok h1
       subst h; subst hs1
-      exact ⟨LogExt.single _ _ ⟨Or.inl rfl, fun _ => rfl⟩, Nat.le_succ _, Nat.le_refl _, rfl⟩
+      exact ⟨LogExt.single _ _ ⟨Or.inl rfl, Or.inl rfl⟩, Nat.le_succ _, Nat.le_refl _, rfl⟩
+
+/-- frame of `updFun` that needs no coherence hypothesis -/
+theorem updFun_ok' {u : SFUser α ε} {s s' : SF α} (h : s.updFun u = .ok s') :
+    s'.mode = s.mode ∧ s'.lb = s.lb ∧ s'.ub = s.ub ∧ s'.x = s.x ∧ s'.scale = s.scale := by
+  unfold SF.updFun at h
+  by_cases hf : s.fUpd = true
+  · simp [hf, pure, Except.pure] at h
+    subst h
+    exact ⟨rfl, rfl, rfl, rfl, rfl⟩
+  · have hf' : s.fUpd = false := by simpa using hf
+    simp only [hf', Bool.false_eq_true, if_false] at h
+    cases h1 : s.callF u s.x with
+    | error e => simp [h1, bind, Except.bind] at h
+    | ok r =>
+      obtain ⟨s1, v⟩ := r
+      simp [h1, bind, Except.bind, pure, Except.pure] at h
+      obtain ⟨-, hs1⟩ := callF_ok h1
+      subst h; subst hs1
+      exact ⟨rfl, rfl, rfl, rfl, rfl⟩
 
 theorem updGrad_log {u : SFUser α ε} {s s' : SF α} (h : s.updGrad u = .ok s') :
-    LogExt (EvalAt s.mode s.x) s.log s'.log ∧ s.nfev ≤ s'.nfev ∧
+    LogExt (EvalAt u s.mode s.x) s.log s'.log ∧ s.nfev ≤ s'.nfev ∧
       (s.mode = .callable → s'.nfev = s.nfev) ∧ s.ngev ≤ s'.ngev ∧ s'.ngev ≤ s.ngev + 1 := by
   unfold SF.updGrad at h
   by_cases hg : s.gUpd = true
@@ -258,7 +278,7 @@ theorem updGrad_log {u : SFUser α ε} {s s' : SF α} (h : s.updGrad u = .ok s')
       | ok g =>
         simp [hG, bind, Except.bind, pure, Except.pure] at h
         subst h
-        exact ⟨LogExt.single _ _ ⟨Or.inr rfl, fun _ => rfl⟩, Nat.le_refl _, fun _ => rfl,
+        exact ⟨LogExt.single _ _ ⟨Or.inr rfl, Or.inl rfl⟩, Nat.le_refl _, fun _ => rfl,
           Nat.le_succ _, Nat.le_refl _⟩
     | fd =>
       simp only [hm] at h
@@ -266,6 +286,7 @@ theorem updGrad_log {u : SFUser α ε} {s s' : SF α} (h : s.updGrad u = .ok s')
       | error e => simp [h1, bind, Except.bind] at h
       | ok s1 =>
         obtain ⟨hl1, hn1, -, hg1⟩ := updFun_log h1
+        obtain ⟨-, -, -, hx1', -⟩ := updFun_ok' h1
         cases h2 : SF.callFs u { s1 with ngev := s1.ngev + 1 } (u.fdPts s1.x s1.f) with
         | error e => simp [h1, h2, bind, Except.bind] at h
         | ok r =>
@@ -274,7 +295,8 @@ theorem updGrad_log {u : SFUser α ε} {s s' : SF α} (h : s.updGrad u = .ok s')
           obtain ⟨-, hs2⟩ := callFs_ok h2
           subst h; subst hs2
           rw [hm] at hl1
-          refine ⟨LogExt.trans hl1 ⟨_, rfl, fcalls_evalAt_fd _ _⟩, ?_, (fun h => by cases h), ?_, ?_⟩
+          refine ⟨LogExt.trans hl1 ⟨_, rfl, by rw [hx1']; exact fcalls_evalAt_fd u s.x s1.f⟩, ?_,
+            (fun h => by cases h), ?_, ?_⟩
           · simp; omega
           · simp [hg1]
           · simp [hg1]
@@ -293,7 +315,7 @@ structure EvalSum (u : SFUser α ε) (s s' : SF α) (x : Vec α) : Prop where
   lb : s'.lb = s.lb
   ub : s'.ub = s.ub
   scale : s'.scale = s.scale
-  log : LogExt (EvalAt s.mode x) s.log s'.log
+  log : LogExt (EvalAt u s.mode x) s.log s'.log
   nfev_ge : s.nfev ≤ s'.nfev
   nfev_le : s.mode = .callable → s'.nfev ≤ s.nfev + 1
   ngev_ge : s.ngev ≤ s'.ngev
